@@ -1213,6 +1213,13 @@ CALLABLE_ASSUMPTIONS = {
     'centroid_func': 'the user-supplied centroid function obeys the property itself (each photutils centroid '
                      'function is its own obligation)',
     'self.gaussian_fit': 'evaluating a fitted astropy model returns a new array and writes to nothing',
+    'self.sigma_clip': {'text': 'astropy SigmaClip called with copy=False clips IN PLACE: it writes through its first '
+                                'argument and returns it (or a copy)', 'mut': [0], 'ret': 'alias',
+                        'when_kw': ('copy', False)},
+    'self.bkg_estimator': {'text': 'background estimators reduce their argument to a new array and write to nothing '
+                                   '(dynamic scenario background_estimators)', 'ret': 'fresh'},
+    'self.bkgrms_estimator': {'text': 'background RMS estimators reduce their argument to a new array and write to '
+                                      'nothing (dynamic scenario background_estimators)', 'ret': 'fresh'},
 }
 SAFE_CLASSES = (
     # constructors / methods summarised as "stores references to its arguments, writes to nothing":
@@ -1234,6 +1241,8 @@ TARGETS = [
      ['RadialProfile', 'CurveOfGrowth', 'centroid_1dg', 'centroid_2dg', 'StarFinder'], []),
     ('function', 'photutils.segmentation.detect', 'detect_sources', None, ['detect_sources'], [r'^detect_sources:']),
     ('methods', 'photutils.psf.photometry', 'PSFPhotometry', ['_make_mask'], ['PSFPhotometry'], [r'^PSFPhotometry:call:mask']),
+    ('methods', 'photutils.background.background_2d', 'Background2D', ['_calculate_stats'],
+     ['Background2D', 'Background2D_blocks'], [r'^Background2D']),
     ('class', 'photutils.profiles.radial_profile', 'RadialProfile', None, ['RadialProfile'], [r'^ProfileBase', r'^RadialProfile:']),
     ('class', 'photutils.profiles.curve_of_growth', 'CurveOfGrowth', None, ['CurveOfGrowth'], [r'^ProfileBase', r'^CurveOfGrowth:']),
     ('class', 'photutils.detection.starfinder', '_StarFinderCatalog', None, ['StarFinder'], [r'^StarFinder.find_stars:data']),
@@ -1412,7 +1421,9 @@ def check_tables(ctx):
     from . import c10_translate as T
     from astropy.modeling.fitting import TRFLSQFitter
     from astropy.modeling.models import Gaussian1D, Gaussian2D
-    ns = dict(np=np, u=u, ndi=ndi, extract_array=extract_array, PchipInterpolator=PchipInterpolator, pstats=pstats,
+    from astropy.nddata import reshape_as_blocks, block_replicate
+    ns = dict(np=np, u=u, ndi=ndi, extract_array=extract_array, reshape_as_blocks=reshape_as_blocks,
+              block_replicate=block_replicate, PchipInterpolator=PchipInterpolator, pstats=pstats,
               TRFLSQFitter=TRFLSQFitter, Gaussian1D=Gaussian1D, Gaussian2D=Gaussian2D)
     rows = [(k, r) for k, r in T.EXT.items()] + [('method.' + k, r) for k, r in T.METHODS.items()]
     bad = []
